@@ -221,8 +221,21 @@ def run(ctx: Ctx) -> None:
     cfg = pm.cfg(fname)
     swaps = [n for n in cfg.nodes if n.kind == "stmt" and isinstance(n.stmt, ast.Assign) and any(attr_chain(t) == ("self", "lex") for t in n.stmt.targets)]
     bounded = [c for c in walk_local(fn) if isinstance(c, ast.Call) and (attr_chain(c.func) or ("",))[-1] == "BoundedTokenStream"]
-    ctx.ob("R7.5", f"parser:CxxParser.{fname}|BoundedTokenStream constructions per iteration", len(bounded) == 1,
-           msg=f"{len(bounded)} bounded re-parse streams are created per template argument; each nesting level multiplies the work",
+    def loops_around(x: ast.AST) -> int:
+        k = 0
+        p_ = pm.mod.parent.get(x)
+        while p_ is not None and p_ is not fn:
+            if isinstance(p_, (ast.For, ast.While)):
+                k += 1
+            p_ = pm.mod.parent.get(p_)
+        return k
+    # the argument's tokens are taken once per iteration of the argument loop: the re-parse stream is built at the same
+    # loop depth (a loop around it - `for mode in (False, True)` - is a second attempt over the same tokens)
+    takes = [c for c in walk_local(fn) if isinstance(c, ast.Call) and pm.resolve(fname, c) == ("self", "_consume_value_until")]
+    depth_ok = bool(takes) and all(loops_around(b) == min(loops_around(t) for t in takes) for b in bounded)
+    ctx.ob("R7.5", f"parser:CxxParser.{fname}|BoundedTokenStream constructions per iteration", len(bounded) == 1 and depth_ok,
+           msg=(f"{len(bounded)} bounded re-parse streams are created per template argument; each nesting level multiplies the work" if len(bounded) != 1 else
+                "the bounded re-parse stream is built inside a loop of its own: the same argument tokens are parsed more than once, and each nesting level multiplies the work"),
            node=bounded[0] if bounded else fn, mod=pm.mod)
     # inside the swap region each entry point into the recursive descent is called once and not in a loop
     reent = pm.closure({fname})
